@@ -759,7 +759,13 @@ class IntermediateColumnarFormatField:
 
     def read_chunk(self, path):
         with open(path, "rb") as f:
-            pkl = self.compressor.decode(f.read())
+            data = f.read()
+        if isinstance(self.compressor, numcodecs.Blosc):
+            # Blosc trusts the compressed size recorded in its 16 byte header and
+            # does not notice when the buffer it is given is shorter than that.
+            if len(data) < 16 or int.from_bytes(data[12:16], "little") != len(data):
+                raise RuntimeError(f"Corruption detected: truncated blosc chunk {path}")
+        pkl = self.compressor.decode(data)
         return pickle.loads(pkl)
 
     def chunk_num_records(self, partition_id):
